@@ -348,3 +348,105 @@ def gen_map(tier, seed):
             fk = "zero" if keys[0] == 0 else "positive" if keys[0] > 0 else "negative"
             stats["first_key"][fk] = stats["first_key"].get(fk, 0) + 1
     return cases, stats
+
+
+# ---------------------------------------------------------------- MultidimensionalPGMIndex
+def multi_configs():
+    out = []
+    for line in open(os.path.join(ROOT, "harness", "multi_configs.inc")):
+        m = re.match(r"MU\((\w+),\s*(\d+),\s*(\w+),\s*(\d+),\s*(\d+),\s*(\d+)\)", line)
+        if m: out.append(dict(name=m.group(1), dims=int(m.group(2)), tbits=int(m.group(4)), eps=int(m.group(5)), epsrec=int(m.group(6))))
+    return out
+
+def morton(dims, p):
+    c = 0
+    for i, x in enumerate(p):
+        b = 0
+        while x:
+            if x & 1: c |= 1 << (b * dims + i)
+            x >>= 1; b += 1
+    return c
+
+def gen_multi(tier, seed):
+    rng = random.Random(seed * 67867967 + 31)
+    cfgs = multi_configs()
+    cases, stats = [], {"kind": {}, "boxes": 0, "n": {}}
+    per_cfg = 8 if tier == "quick" else 90
+    cid = 0
+    for cfg in cfgs:
+        D = cfg["dims"]
+        fb = cfg["tbits"] // D
+        cmax = (1 << (fb - 1)) - 1
+        for j in range(per_cfg):
+            kind = rng.choice(["grid", "grid", "thin", "random", "clusters", "big"])
+            side = rng.choice([2, 3, 4, 6, 8]) if D >= 3 else rng.choice([4, 8, 12, 20, 30])
+            side = min(side, cmax + 1)
+            org = [rng.choice([0, 0, rng.randint(0, max(0, cmax - side))]) for _ in range(D)]
+            pts = []
+            if kind == "grid":        # dense grid: every cell occupied, some duplicates -> many consecutive hits
+                def rec(pfx):
+                    if len(pfx) == D: pts.append(list(pfx)); return
+                    for v in range(side): rec(pfx + [org[len(pfx)] + v])
+                rec([])
+                pts += [rng.choice(pts) for _ in range(len(pts) // 5)]
+            elif kind == "thin":      # points on a thin slab: long runs of misses between hits (> 64 misses)
+                n = rng.randint(100, 600)
+                for _ in range(n):
+                    p = [org[i] + rng.randrange(side * 4 if i else 2) for i in range(D)]
+                    pts.append([min(cmax, x) for x in p])
+            elif kind == "clusters":
+                for _ in range(rng.randint(3, 8)):
+                    ctr = [rng.randint(0, cmax) for _ in range(D)]
+                    for _ in range(rng.randint(5, 60)):
+                        pts.append([min(cmax, max(0, x + rng.randint(-4, 4))) for x in ctr])
+            elif kind == "big":
+                for _ in range(rng.randint(200, 800 if tier == "quick" else 3000)):
+                    pts.append([rng.randint(0, min(cmax, 1 << rng.choice([4, 8, fb - 1]))) for _ in range(D)])
+            else:
+                for _ in range(rng.randint(1, 200)):
+                    pts.append([rng.randint(0, min(cmax, 64)) for _ in range(D)])
+            rng.shuffle(pts)
+            allp = pts
+            boxes = []
+            for _ in range(10 if tier == "quick" else 25):
+                a = rng.choice(allp); b = rng.choice(allp)
+                mode = rng.random()
+                if mode < 0.2: lo, hi = a, a                                         # single cell at a stored point
+                elif mode < 0.35: lo, hi = [0] * D, [cmax] * D                         # full space
+                elif mode < 0.5:                                                       # one-cell-thick slab
+                    lo = [min(x, y) for x, y in zip(a, b)]; hi = [max(x, y) for x, y in zip(a, b)]
+                    k = rng.randrange(D); hi[k] = lo[k]
+                elif mode < 0.6:                                                       # box with no point: beyond everything
+                    mx = [max(p[i] for p in allp) for i in range(D)]
+                    lo = [min(cmax, x + 1) for x in mx]; hi = [min(cmax, x + 3) for x in mx]
+                else:
+                    lo = [min(x, y) for x, y in zip(a, b)]; hi = [max(x, y) for x, y in zip(a, b)]
+                    if rng.random() < 0.3: hi = [min(cmax, h + rng.randint(0, 5)) for h in hi]
+                boxes.append(":".join(map(str, lo)) + "/" + ":".join(map(str, hi)))
+            # the box reaching the largest stored code
+            top = max(allp, key=lambda p: morton(D, p))
+            boxes.append(":".join(map(str, [max(0, x - 2) for x in top])) + "/" + ":".join(map(str, top)))
+            cont = []
+            for _ in range(12 if tier == "quick" else 40):
+                p = list(rng.choice(allp))
+                r = rng.random()
+                if r < 0.5: pass
+                elif r < 0.7: p[rng.randrange(D)] = min(cmax, p[rng.randrange(D)] + 1)
+                elif r < 0.8: p = [0] * D
+                elif r < 0.9: p = [cmax] * D
+                else: p = [rng.randint(0, cmax) for _ in range(D)]
+                cont.append(":".join(map(str, p)))
+            big = []
+            for _ in range(15 if tier == "quick" else 60):
+                small = rng.random() < 0.7
+                lim = 7 if small else min(cmax, 200)
+                lo = [rng.randint(0, lim) for _ in range(D)]; hi = [rng.randint(l, min(cmax, l + (3 if small else 20))) for l in lo]
+                zmin, zmax = morton(D, lo), morton(D, hi)
+                x = rng.choice([rng.randint(0, zmax + 5), rng.randint(zmin, zmax), max(0, zmin - 1), zmax, zmin])
+                big.append("%d:%d:%d" % (x, zmin, zmax))
+            cid += 1
+            cases.append("MUL u%d %s %d %d %d %d | %s | %s | %s | %s" % (cid, cfg["name"], D, cfg["tbits"], cfg["eps"], cfg["epsrec"],
+                         " ".join(":".join(map(str, p)) for p in pts), " ".join(boxes), " ".join(cont), " ".join(big)))
+            stats["kind"][kind] = stats["kind"].get(kind, 0) + 1
+            stats["boxes"] += len(boxes)
+    return cases, stats
